@@ -225,6 +225,7 @@ static ezc3d::DataNS::Frame buildFrame(const Shape &s, long long dev, uint64_t v
     case 9: if (nSub > 1) { --nSub; note = "sub-1"; } break;
     case 10: if (nSub > 0) { ++nSub; note = "sub+1"; } break;
     case 11: if (names.size() >= 2) { std::swap(names[0], names[names.size() - 1]); note = "perm"; } break;
+    case 14: if (!names.empty()) { size_t i = r.below(names.size()); names[i] = names[i] + (r.below(2) ? "2" : "_old"); note = "rename-extended"; } break;   // the label is a proper prefix of the new name
     default: break;
     }
     ezc3d::DataNS::Points3dNS::Points pts;
@@ -752,7 +753,9 @@ Outcome Interp::exec(const Op &op) {
             }
             long long nb = op.arg(0) < 0 ? -op.arg(0) : op.arg(0);
             size_t ncols = static_cast<size_t>(1 + (op.arg(1) < 0 ? -op.arg(1) : op.arg(1)) % 3);
-            long long dev = (op.arg(2) < 0 ? -op.arg(2) : op.arg(2)) % 13;     // 11: (acol) a later sub-frame of the last frame is one column short; 12: (pcol) a later frame carries a spare point behind the new ones
+            long long dev = (op.arg(2) < 0 ? -op.arg(2) : op.arg(2)) % 15;     // 13: (acol) the last frame names the new channels differently; 14: (acol) two new columns share one name
+            if (isP && dev >= 13) dev = 0;
+            // (11: (acol) a later sub-frame of the last frame is one column short; 12: (pcol) a later frame carries a spare point behind the new ones)
             Rng r(static_cast<uint64_t>(op.arg(3)));
             std::vector<std::string> names;
             for (size_t j = 0; j < ncols; ++j) names.push_back(isP ? pointNameOf(500 + nb + static_cast<long long>(j)) : channelNameOf(500 + nb + static_cast<long long>(j)));
@@ -763,6 +766,7 @@ Outcome Interp::exec(const Op &op) {
             if (out.note == "match")
                 for (size_t j = 0; j < names.size() && out.note == "match"; ++j)
                     for (auto &e : existing) if (rtrim(e) == names[j]) { out.note = "exists" + std::to_string(j); break; }
+            if (!isP && dev == 14 && ncols >= 2 && out.note == "match") { names[1] = names[0]; out.note = "dupnew"; }
             size_t nF = s.nFrames;
             if (dev == 2 && nF > 0) { --nF; out.note = "frames-1"; }
             if (dev == 3) { ++nF; out.note = "frames+1"; }
@@ -802,7 +806,9 @@ Outcome Interp::exec(const Op &op) {
                             ezc3d::DataNS::AnalogsNS::SubFrame sf;
                             size_t colsHere = cols;
                             if (dev == 11 && nF >= 1 && f == nF - 1 && nSub >= 2 && sfi == nSub - 1 && cols >= 1) { colsHere = cols - 1; out.note = "ragged"; }
-                            for (size_t j = 0; j < colsHere; ++j) { ezc3d::DataNS::AnalogsNS::Channel ch; ch.name(names[j]); ch.data(bitsToFloat(genFloatBits(r))); sf.channel(ch); }
+                            const bool otherNames = dev == 13 && nF >= 2 && f == nF - 1 && (out.note == "match" || out.note == "altname-channels");
+                            if (otherNames) out.note = "altname-channels";
+                            for (size_t j = 0; j < colsHere; ++j) { ezc3d::DataNS::AnalogsNS::Channel ch; ch.name(otherNames ? names[j] + "_other" : names[j]); ch.data(bitsToFloat(genFloatBits(r))); sf.channel(ch); }
                             an.subframe(sf);
                         }
                         fr.add(an);
@@ -847,6 +853,24 @@ Outcome Interp::exec(const Op &op) {
                 ++filled;
             }
             out.note = "filled " + std::to_string(filled);
+        }
+        else if (k == "resample") {
+            // resample <k> <vseed>: the caller changes ANALOG:RATE to k x POINT:RATE and replaces every stored frame by one with k sub-frames
+            // (same points and channels): the object is consistent again when the last frame has been replaced
+            Shape s = shapeOf(*obj);
+            const size_t n = obj->data().nbFrames();
+            bool ok = s.nC > 0 && s.prate >= 1.f && n >= 1 && s.nSub >= 1 && gapIdx.empty() && s.plabels.size() == s.nP && !analogGroupEmpty;   // (every replacement must be acceptable: the operation is not atomic)
+            for (size_t f = 0; ok && f < n; ++f) { const auto &fr = obj->data().frame(f); if (fr.points().nbPoints() != s.nP || fr.analogs().nbSubframes() != s.nSub) ok = false; }
+            if (!ok) { out.skipped = true; out.note = "needs channels, rates and uniform frames"; return out; }
+            size_t kNew = 1 + static_cast<size_t>(op.arg(0) < 0 ? -op.arg(0) : op.arg(0)) % 6; if (kNew == s.nSub) kNew = kNew % 6 + 1;
+            if (kNew * s.nC > 65535) { out.skipped = true; return out; }
+            out.mutating = true;
+            ezc3d::ParametersNS::GroupNS::Parameter ar("RATE"); ar.set(std::vector<float>() = {s.prate * static_cast<float>(kNew)});
+            obj->parameter("ANALOG", ar);
+            Shape s2 = s; s2.nSub = kNew; s2.arate = s.prate * static_cast<float>(kNew); s2.nFrames = n;
+            for (size_t f = 0; f < n; ++f) { std::string note; ezc3d::DataNS::Frame nf = buildFrame(s2, 0, static_cast<uint64_t>(op.arg(1)) + f * 3 + 1, note); obj->frame(nf, f); }
+            for (int s3 = 0; s3 < 4; ++s3) slotAlias[s3] = -1;
+            out.note = "sub-frames " + std::to_string(s.nSub) + "->" + std::to_string(kNew);
         }
         else if (k == "print") {
             NullBuf nb; std::streambuf *old = std::cout.rdbuf(&nb);
